@@ -80,7 +80,7 @@ theorem quiescent_src_none {s : Sys} (h : MigInv s) (hq : Quiescent s) : s.src =
 /-- decidable form of `GoodStep` -/
 def goodB (s : Sys) : Label → Bool
   | .inv _ _ c => !c.deletes || c.blocking
-  | .commit .D => s.crit.isNone
+  | .commit .D => (critDump s).isNone
   | _ => true
 
 theorem goodStep_of_goodB {s : Sys} {l : Label} (h : goodB s l = true) : GoodStep s l := by
